@@ -17,6 +17,7 @@ import (
 	"io"
 	"os"
 	"reflect"
+	"runtime"
 	"strconv"
 	"strings"
 	"sync/atomic"
@@ -209,7 +210,30 @@ type item struct {
 var curCase atomic.Value // string
 var curStart atomic.Int64
 
-func runDec(c *dcase) (opres []string, log []int, seq []item) {
+// poolPhase: bufPool recycles buffers (option.LimitBufferSize at its default); set by main for the last phase only
+var poolPhase = false
+
+// churn pushes unrelated data through recycled stream buffers: new decoders, one value per Read, then a GC, then again
+func churn(pcap int) {
+	for round := 0; round < 2; round++ {
+		for i := 0; i < 3; i++ {
+			var chunks []chunk
+			for j := 0; j < 4; j++ {
+				chunks = append(chunks, chunk{data: []byte(`{"` + strings.Repeat("Z", 40+j) + `":"` + strings.Repeat("Q", 60+i) + `"} `)})
+			}
+			d := decoder.NewStreamDecoder(&chunkReader{chunks: chunks, fin: io.EOF})
+			for k := 0; k < 6; k++ {
+				var v interface{}
+				if d.Decode(&v) != nil {
+					break
+				}
+			}
+		}
+		runtime.GC()
+	}
+}
+
+func runDec(c *dcase) (opres []string, log []int, seq []item, alias string) {
 	chunks, _, _, _ := parseChunks(c.chunks)
 	fin := errOf(c.fin)
 	rd := &chunkReader{chunks: chunks, fin: fin}
@@ -221,6 +245,8 @@ func runDec(c *dcase) (opres []string, log []int, seq []item) {
 		d = decoder.NewStreamDecoder(rd)
 	}
 	done := false
+	var kept []interface{} // every decoded value is retained ...
+	var early []string     // ... together with its serialisation at the time Decode returned
 	for _, op := range c.ops {
 		var res string
 		func() {
@@ -254,6 +280,8 @@ func runDec(c *dcase) (opres []string, log []int, seq []item) {
 							js = []byte("marshal-error")
 						}
 						res = "V:" + out.Hex(js)
+						kept = append(kept, v)
+						early = append(early, string(js))
 						if !done {
 							seq = append(seq, item{class: "val", v: v, off: -2})
 						}
@@ -290,7 +318,22 @@ func runDec(c *dcase) (opres []string, log []int, seq []item) {
 		}
 		opres = append(opres, res+"@"+strconv.FormatInt(off, 10))
 	}
-	return opres, rd.log, seq
+	// the values handed out earlier must still be what they were, after the whole stream has been consumed and the
+	// stream buffers have gone through the pool a few more times
+	if poolPhase {
+		churn(c.pcap)
+	}
+	for k, v := range kept {
+		late, e2 := json.Marshal(v)
+		if e2 != nil {
+			late = []byte("marshal-error")
+		}
+		if string(late) != early[k] {
+			alias = fmt.Sprintf("alias:%d:%s:%s", k, out.HexS(early[k]), out.Hex(late))
+			break
+		}
+	}
+	return opres, rd.log, seq, alias
 }
 
 // ------------------------------------------------------------------ the property's oracle: encoding/json.Decoder on the unchunked bytes
@@ -1058,7 +1101,7 @@ type sink struct {
 func (s *sink) dec(c *dcase) {
 	curCase.Store(c.line(*avx2))
 	curStart.Store(time.Now().UnixNano())
-	opres, log, seq := runDec(c)
+	opres, log, seq, alias := runDec(c)
 	curStart.Store(0)
 	_, all, wf, _ := parseChunks(c.chunks)
 	std := runStd(all, errOf(c.fin))
@@ -1076,6 +1119,9 @@ func (s *sink) dec(c *dcase) {
 		if std.ctl && prop != "ok" {
 			prop = "skip-ctl"
 		}
+	}
+	if alias != "" {
+		prop = alias // a returned value changed afterwards: worse than any divergence
 	}
 	s.cases.Line(c.line(*avx2))
 	s.impl.Line(c.id, strings.Join(opres, " "), strings.Join(logs, ","), strings.Join(texts, ",")+"|"+std.term, prop)
@@ -1249,7 +1295,7 @@ func main() {
 		sk.impl.Line(il)
 		sk.n++
 	}
-	// 5. stream encoder over writer oracles
+	// 6 (runs last, see below). pool phase
 	rw := r.Fork(5)
 	nenc := 3000 * *scale
 	if thorough {
